@@ -165,6 +165,7 @@ fn judge_loop(input: &[u8], with_storage: bool, loc: &mut Local) {
 }
 
 pub fn run(ctx: &Ctx) {
+    ctx.enable_trace_pass(ctx.tier.pick(20000u64, 200000u64));
     ctx.set_rule("case = (byte string, storage mode), judged under 5 filter configurations plus the message skipper; expected boundaries are computed from the input bytes alone; non-trivial = at least one call returned Ok (the premise of the property)");
     ctx.assume("ParsedMessage::Invalid is counted but not judged (the statement speaks of returned, filtered-out and skipped messages)");
     let filters = filter_configs();
@@ -176,7 +177,7 @@ pub fn run(ctx: &Ctx) {
         ctx.run_family(Family::new("c04.prefix_sweep", prefix_sweep_size(ctx.tier), format!("{} (LEN low bytes {:02x?}) x 5 filter configurations + skipper", PREFIX_SWEEP_ABOUT, lows), move |i, loc| {
             loc.input_hash_override = Some(i);
             with_prefix_sweep_case(i, tier, lows, |input, mode| judge(input, mode, &filters[..if tier == Tier::Quick { filters.len() } else { 3 }], loc));
-        }).distinct());
+        }).distinct().trace(3000));
     }
     for f in decode_inputs(ctx.tier) {
         let gen = &f.gen;
